@@ -59,12 +59,12 @@ def native_runtime_lib(ok, failed_names):
     out = os.path.join(OBJ, "runtime-native-" + h + ".o")
     if os.path.exists(out):
         return out
-    for fn in os.listdir(OBJ):
-        if fn.startswith("runtime-native-"):
-            try:
-                os.unlink(os.path.join(OBJ, fn))
-            except OSError:
-                pass
+    olds = sorted((fn for fn in os.listdir(OBJ) if fn.startswith("runtime-native-")), key=lambda fn: os.path.getmtime(os.path.join(OBJ, fn)))
+    for fn in olds[:-3]:
+        try:
+            os.unlink(os.path.join(OBJ, fn))
+        except OSError:
+            pass
     t0 = time.time()
     with ThreadPoolExecutor(max_workers=vbuild.JOBS) as ex:
         objs = list(ex.map(lambda r: vbuild.native_object(r["bc"]), ok))
